@@ -152,13 +152,23 @@ func extText(v ir.Value) (fn, arg string) {
 	return "", ""
 }
 
+// key writes a structural member name (__entity, __extn, type, id, fn, arg). A JSON string may spell any character
+// with a \uXXXX escape, so now and then one character of the name is written that way: it is the same document.
+func (e *emitter) key(name string) string {
+	if e.n(8) != 0 {
+		return `"` + name + `"`
+	}
+	i := e.n(len(name))
+	return `"` + name[:i] + u4(rune(name[i]), e.n(2) == 1) + name[i+1:] + `"`
+}
+
 // uidExplicit / uidImplicitForm / ext forms
 func (e *emitter) uidExplicit(v ir.Value) string {
-	return e.obj([][2]string{{`"__entity"`, e.obj([][2]string{{`"type"`, e.str(v.T)}, {`"id"`, e.str(v.S)}})}})
+	return e.obj([][2]string{{e.key("__entity"), e.obj([][2]string{{e.key("type"), e.str(v.T)}, {e.key("id"), e.str(v.S)}})}})
 }
 
 func (e *emitter) uidImplicitForm(v ir.Value) string {
-	return e.obj([][2]string{{`"type"`, e.str(v.T)}, {`"id"`, e.str(v.S)}})
+	return e.obj([][2]string{{e.key("type"), e.str(v.T)}, {e.key("id"), e.str(v.S)}})
 }
 
 // typedUID: an entity reference in a position whose type is known to be an entity (uid, parents, request parts).
@@ -172,14 +182,14 @@ func (e *emitter) typedUID(v ir.Value) string {
 // ext writes an extension value: form 0 = {"__extn":{"fn","arg"}}, 1 = {"fn","arg"}, 2 = bare string.
 func (e *emitter) ext(v ir.Value, form int) string {
 	fn, arg := extText(v)
-	inner := e.obj([][2]string{{`"fn"`, e.str(fn)}, {`"arg"`, e.str(arg)}})
+	inner := e.obj([][2]string{{e.key("fn"), e.str(fn)}, {e.key("arg"), e.str(arg)}})
 	switch form {
 	case 1:
 		return inner
 	case 2:
 		return e.str(arg)
 	}
-	return e.obj([][2]string{{`"__extn"`, inner}})
+	return e.obj([][2]string{{e.key("__extn"), inner}})
 }
 
 // value writes a value in the explicit (self-describing) spelling accepted everywhere.
